@@ -22,6 +22,8 @@ def _kind(c): return c.req.split(' ', 1)[0]
 def proj_thr(c):
     """the observable C15 speaks about: did `run` return, promptly, and is the observed event order a
     trace of the model. Without a death in the log the model predicts that `run` does not return."""
+    if c.req.startswith('thrrel'):
+        return (c.impl.split(), c.model.split())
     it = c.impl.split()
     mt = c.model.split()
     acc = mt[4] if len(mt) > 4 else 'unparsed'
@@ -56,3 +58,32 @@ PROPS_THREADS = {
 }
 
 EXTERNAL_THREADS = {'thr': c15_exec}
+
+
+# ---- release-binary process scenarios (what ships; no hooks): writer dies at start-up ------------
+import subprocess as _sp, os as _os, concurrent.futures as _cf
+
+def c15_release_exec(reqs):
+    """`thrrel <nochrony|silent>`: build the release daemon from /repo's working tree, run the scenario"""
+    env = dict(_os.environ); env['CARGO_NET_OFFLINE'] = 'true'
+    p = _sp.run(['cargo', 'build', '--release', '--offline', '-p', 'clock-bound-d', '--target-dir', '/verif/build/target-rel'],
+                cwd='/repo', env=env, stdin=_sp.DEVNULL, stdout=_sp.PIPE, stderr=_sp.STDOUT, text=True)
+    if p.returncode != 0:
+        return [f'{r} => build-failed' for r in reqs]
+    def one(r):
+        mode = r.split()[1]
+        q = _sp.run(['/verif/tools/c15_release.sh', '/verif/build/target-rel/release/clockbound', mode],
+                    stdin=_sp.DEVNULL, stdout=_sp.PIPE, stderr=_sp.DEVNULL, text=True, timeout=60)
+        t = q.stdout.split()
+        if len(t) >= 2 and t[0] == 'exited':
+            ms = int(t[-1]); return f"{r} => exited {'fast' if ms < 6000 else 'slow'}"
+        return f"{r} => never"
+    with _cf.ThreadPoolExecutor(max_workers=4) as ex:
+        return list(ex.map(one, reqs))
+
+EXTERNAL_THREADS['thrrel'] = c15_release_exec
+_old_gens = PROPS_THREADS['C15']['gens']
+PROPS_THREADS['C15']['gens'] = lambda seed, th: _old_gens(seed, th) + [lambda: c15_release_exec(['thrrel nochrony', 'thrrel silent'])]
+_old_rel = PROPS_THREADS['C15']['relevant']
+PROPS_THREADS['C15']['relevant'] = lambda c: _old_rel(c) or c.req.startswith('thrrel')
+PROPS_THREADS['C15']['rule'] += " || plus two process-level scenarios with the RELEASE binary built from the working tree (no hooks): /run/clockbound is a regular file, so the writer thread panics at start-up; chronyd absent, or its socket present but silent (each query takes its full 3 x 1 s); the process must exit within 6 s"
